@@ -414,3 +414,116 @@ Proof.
   split; [vm_compute; reflexivity|]. split; [vm_compute; reflexivity|].
   eexists. split; vm_compute; reflexivity.
 Qed.
+
+(* ---- extend-c04lax ---- *)
+(* (a) and (b) for the lax header-struct family LaxPacketHeaders (model Parse/HdrLaxModel.v),
+   derived in Parse/HdrLaxC05.v by composition of
+     C04_headers_eq_slices            PacketHeaders = strict slicing cut at a refilled extension header
+     C05_lax_extends_strict / C05_lax_prefix   strict slicing -> lax slicing
+     C04_lax_headers_eq_slices        lax slicing cut at a refilled extension header = LaxPacketHeaders
+   Both compositions pass through the UNCUT slicing results; they are therefore stated outside the
+   documented struct-decoding exception: `stopped_at_ext (Cut.from_* true bs) = false` (strict) and
+   `lax_stopped_at_ext (LaxCut.from_* true bs) = false` (lax): no IPv6 extension header of a kind whose
+   struct slot is already filled.  Inside that class the two struct decoders are still compared with
+   each other on every generated case on the implementation side. *)
+From EP Require Import Parse.HdrView Parse.HdrCut Parse.HdrProofs3 Parse.HdrLaxView Parse.HdrLaxCut
+  Parse.HdrLaxC05.
+
+(* (a): whenever strict PacketHeaders accepts (Ok hp), LaxPacketHeaders returns Ok with the same link /
+   link extension / network / transport header windows, the same payload (kind, ether type or IP
+   number + fragmentation flag + length source, window; for an ether payload the length source is
+   left out: observation (D) of notes/C04.md), no stop error and the payload not marked incomplete *)
+Theorem C05_headers_lax_extends_strict : forall bs et, bytes_ok bs ->
+  (forall hp, PacketHeaders.from_ethernet_slice bs = Ok hp ->
+     stopped_at_ext (Cut.from_ethernet true bs) = false ->
+     lax_stopped_at_ext (LaxCut.from_ethernet true bs) = false ->
+     hdr_same hp (LaxPacketHeaders.from_ethernet bs)) /\
+  (forall hp, PacketHeaders.from_ether_type et bs = Ok hp ->
+     stopped_at_ext (Cut.from_ether_type true et bs) = false ->
+     lax_stopped_at_ext (LaxCut.from_ether_type true et bs) = false ->
+     hdr_same hp (LaxPacketHeaders.from_ether_type et bs)) /\
+  (forall hp, PacketHeaders.from_ip_slice bs = Ok hp ->
+     stopped_at_ext (Cut.from_ip true bs) = false ->
+     lax_stopped_at_ext (LaxCut.from_ip true bs) = false ->
+     hdr_same hp (LaxPacketHeaders.from_ip bs)).
+Proof. exact hdr_lax_extends_strict. Qed.
+Print Assumptions C05_headers_lax_extends_strict.
+
+Check (eq_refl : hdr_same =
+  fun hp lh =>
+    exists p v v0, lh = Ok p /\ lhview_of p = Ok v /\ hview_of hp = Ok v0 /\
+      option_map hvlink_win (lhv_link v) = hv_link v0 /\ lhv_exts v = hv_exts v0 /\
+      lhv_net v = hv_net v0 /\ lhv_tr v = hv_tr v0 /\
+      same_payload (strip_inc (lhv_payload v)) (hv_payload v0) /\
+      payload_inc (lhv_payload v) = false /\ lhv_stop v = None).
+Check (eq_refl : same_payload =
+  fun a b => a = b \/ exists e e', a = HvpEther e /\ b = HvpEther e' /\
+                                   vep_type e = vep_type e' /\ vep_win e = vep_win e').
+
+(* (b): strict slicing rejects with e behind the first header  ==>  the instrumented reference decoder
+   rejects with (q, e_ref) (q = the layers in front of the fault, e_ref = the fault, C03/C07 relation
+   to e), LaxPacketHeaders returns Ok p, and outside F10: the link extensions and the network header
+   of q are layers of p with their header windows (a transport layer of q is a transport layer of p),
+   and e_ref is a documented length fallback, or the stop error of p is the same record (length
+   source: the true one, Slice, or F7) with a fitting layer tag, or (F11 group) e_ref is a fault of the
+   IP header itself and the stop error of p is a fault of the IP header with tag IpHeader (at the same
+   offset unless p is in the F11-like class `f11_stop`) *)
+Theorem C05_headers_lax_prefix : forall bs et, bytes_ok bs ->
+  (14 <= len bs ->
+   hdr_prefix_ok bs (SlicedPacket.from_ethernet bs) (pwire_ethernet bs)
+     (LaxCut.from_ethernet true bs) (LaxPacketHeaders.from_ethernet bs)) /\
+  hdr_prefix_ok bs (SlicedPacket.from_ether_type et bs) (pwire_ether_type bs et)
+    (LaxCut.from_ether_type true et bs) (LaxPacketHeaders.from_ether_type et bs) /\
+  (ip_header_fault bs = None ->
+   hdr_prefix_ok bs (SlicedPacket.from_ip bs) (pwire_from_ip bs)
+     (LaxCut.from_ip true bs) (LaxPacketHeaders.from_ip bs)).
+Proof. exact hdr_lax_prefix. Qed.
+Print Assumptions C05_headers_lax_prefix.
+
+Check (eq_refl : hdr_prefix_ok =
+  fun bs strict pw laxcut lh => forall e, strict = Err e -> lax_stopped_at_ext laxcut = false ->
+    exists q e_ref p v,
+      pw = PRej q e_ref /\ res_rel (VErr e) (VErr e_ref) /\ lh = Ok p /\ lhview_of p = Ok v /\
+      (~ F10_class bs e_ref -> hdr_prefix q v /\ hdr_outcome e_ref v)).
+Check (eq_refl : hdr_prefix =
+  fun q v =>
+    (exists rest, lhv_exts v = map ext_hdr (v_exts q) ++ rest) /\
+    (v_net q = None \/ option_map net_hdr (v_net q) = lhv_net v) /\
+    (v_transport q = None \/ lhv_tr v <> None)).
+Check (eq_refl : hdr_outcome =
+  fun e v =>
+    fallback e \/
+    (exists e' ly, lhv_stop v = Some (e', ly) /\ lax_same e e' /\ tag_ok e' ly) \/
+    (ip_hdr_class e /\
+     exists e', lhv_stop v = Some (e', LyIpHeader) /\ ip_hdr_class e' /\
+       (f11_stop (lhv_stop v) = false ->
+        forall o o', err_off e = Some o -> err_off e' = Some o' -> o = o'))).
+
+(* non-vacuity.  (a): the packet of C05_ex_extends; (b): the packet of C05_ex_prefix_stop (TCP header
+   cut short: recorded on layer TcpHeader, IPv4 layer in front of the fault) *)
+Example C05_ex_headers_extends :
+  bytes_ok ex_pkt /\
+  (exists hp, PacketHeaders.from_ethernet_slice ex_pkt = Ok hp) /\
+  stopped_at_ext (Cut.from_ethernet true ex_pkt) = false /\
+  lax_stopped_at_ext (LaxCut.from_ethernet true ex_pkt) = false /\
+  lhvres_of_h (LaxPacketHeaders.from_ethernet ex_pkt) =
+    LHOk (mkLHv (Some (HvlEthernet2 (0, 14))) [HvVlan (14, 4)] (Some (HvIpv4 (18, 20) None))
+                (Some (HvUdp (38, 8))) (LHvpUdp false (46, 4)) None).
+Proof.
+  split; [apply bytes_okb_spec; vm_compute; reflexivity|].
+  split; [eexists; vm_compute; reflexivity|]. repeat split; vm_compute; reflexivity.
+Qed.
+
+Example C05_ex_headers_prefix :
+  bytes_ok ex_tcp_cut /\ 14 <= len ex_tcp_cut /\
+  SlicedPacket.from_ethernet ex_tcp_cut = Err (ELen (mkLenError 20 4 LsIpv4HeaderTotalLen LyTcpHeader 34)) /\
+  lax_stopped_at_ext (LaxCut.from_ethernet true ex_tcp_cut) = false /\
+  lhvres_of_h (LaxPacketHeaders.from_ethernet ex_tcp_cut) =
+    LHOk (mkLHv (Some (HvlEthernet2 (0, 14))) [] (Some (HvIpv4 (14, 20) None)) None
+                (LHvpIp (mkLVIp false 6 false LsIpv4HeaderTotalLen (34, 4)))
+                (Some (ELen (mkLenError 20 4 LsIpv4HeaderTotalLen LyTcpHeader 34), LyTcpHeader))).
+Proof.
+  split; [apply bytes_okb_spec; vm_compute; reflexivity|].
+  split; [vm_compute; discriminate|]. repeat split; vm_compute; reflexivity.
+Qed.
+(* ---- end extend-c04lax ---- *)
